@@ -1,6 +1,7 @@
 package simrt
 
 import (
+	"sync"
 	"context"
 	"crypto/sha256"
 	"encoding/hex"
@@ -162,6 +163,8 @@ type Kernel struct {
 	Orphans      []Seen // handler invocations with no call id
 	TS           *TSBridge
 	tsQueue      []*tsPending
+	shared       map[string]proto.Message // Plan.SharedMsgs: one instance per (rpc, payload)
+	sharedMu     sync.Mutex
 	held         []kmsg
 }
 
@@ -290,7 +293,15 @@ func (k *Kernel) enabled(now time.Duration) (en []event, next time.Duration) {
 	for _, w := range k.parked {
 		en = append(en, event{kind: "resume", w: w})
 	}
+	streaming := map[*Conn]bool{}
 	for _, p := range k.tsQueue {
+		// the pieces of one request (head, body chunks, end) reach the TS server in order
+		if p.conn != nil && (p.kind == "serve" || p.kind == "body-chunk" || p.kind == "body-end" || p.kind == "body-error") {
+			if streaming[p.conn] {
+				continue
+			}
+			streaming[p.conn] = true
+		}
 		en = append(en, event{kind: "ts", ts: p})
 	}
 	return en, next
